@@ -171,6 +171,13 @@ func TestVerif_C08_FlvRead(t *testing.T) {
 					if !check(fmt.Sprintf("c08:flv-read-fault:v%d", variant), rd.Offset(), hdrOK, tags, err, true) {
 						return
 					}
+					// the same fault as a transient one: only call k fails, the file would continue behind it
+					rt := &vnet.CutReader{Data: data, Cut: N, Seg: mk(), Err: wantErr, FailAtCall: k, DataWithErr: variant%2 == 1, Transient: true}
+					hdrOK, tags, err = demux(rt)
+					m.Count("transient_read_faults_enumerated", 1)
+					if !check(fmt.Sprintf("c08:flv-transient-read-fault:v%d", variant), rt.Offset(), hdrOK, tags, err, true) {
+						return
+					}
 					wantErr = sentinel
 				}
 				m.Classf("readfault/seg%d/tags%d", si, len(f.Tags))
